@@ -77,7 +77,17 @@ class _Unreadable:
         return "<UNREADABLE>"
 
 
-UNREADABLE = _Unreadable()
+UNREADABLE = _Unreadable()          # an empty file: pickle.load raises EOFError("Ran out of input")
+
+
+class _Truncated(_Unreadable):
+    """a pickle cut short: pickle.load raises UnpicklingError("pickle data was truncated")"""
+
+    def __repr__(self):
+        return "<TRUNCATED>"
+
+
+TRUNCATED = _Truncated()
 
 
 class FakeFS:
